@@ -140,7 +140,7 @@ def make_classifier(g, rd, loop):
     return classify, norm
 
 
-def r2_table(chk: Check, direction: str = "emitted"):
+def r2_table(chk: Check, direction: str = "emitted", only_atom: str = None):
     """R2: decision table of the argument loop against the documented rule.
     direction='emitted': report arguments hashed where the documented rule skips them (C02);
     direction='skipped': report arguments skipped where the rule hashes them (C03)"""
@@ -182,6 +182,8 @@ def r2_table(chk: Check, direction: str = "emitted"):
         s = dict(zip(ATOMS, bits))
         if not consistent(s):
             continue
+        if only_atom is not None and not s[only_atom]:
+            continue
         s2 = dict(s)
         s2["__is_ignored__"] = s["is_config"] and s["meta_truthy"]
         nsc += 1
@@ -220,7 +222,7 @@ def r2_table(chk: Check, direction: str = "emitted"):
         chk.require(ok, chk.fkey(f, "emitted triple"), f"an emitted argument is not hashed as name / NAME tag / value: {list(sh)}", loc)
     if not bad:
         chk.ok(chk.fkey(f, "argument loop decision table"), loc, f"{nsc} consistent scenarios over {len(ATOMS)} atoms agree with the documented rule")
-    chk.min_instances(nsc, 60, "consistent scenarios")
+    chk.min_instances(nsc, 60 if only_atom is None else 10, "consistent scenarios")
 
 
 def r3_containers(chk: Check):
